@@ -89,7 +89,31 @@ def r1(cx):
                     # a skip that is not the alternative of a serialize_field of the same name is unconditional
                     skipped_uncond.append(name)
             wnames = [n for n, _ in written]
-            skipped_uncond = [n for n in skipped_uncond if n not in wnames]
+            # a conditional skip (`skip_serializing_if`) loses nothing only if the predicate holds exactly for the value the
+            # reader puts back for a missing key (the type's default): `Option::is_none`, `is_empty` of a string / list /
+            # map, `Value::is_null`. Any other predicate (a helper that also calls `{}` or `""` empty for a field whose
+            # default is null) makes write-then-read return a different model
+            cond_bad = []
+            for c in ser.calls():
+                decl = c.callee.get("decl") or ""
+                if not decl.endswith("SerializeStruct::skip_field"):
+                    continue
+                name = M.const_str(pv.root(ser, c.args[1]))
+                if name not in wnames:
+                    continue
+                pred = None
+                for g_ in guards_of(m, ser, c.b, mode="alias"):
+                    if g_.neutral:
+                        continue
+                    if g_.root[0] == "call":
+                        pred = (g_.root[1], g_.truth)
+                        break
+                okp = pred is not None and pred[1] is True and bool(re.search(
+                    r"^std::option::Option::<T>::is_none$|^std::string::String::is_empty$|^std::vec::Vec::<T, A>::is_empty$|^std::str::<impl str>::is_empty$"
+                    r"|^acts::model::vars::Vars::is_empty$|^std::collections::(HashMap|BTreeMap|HashSet|BTreeSet)::<.*>::is_empty$|^serde_json::Value::is_null$|^serde_json::value::Value::is_null$", pred[0]))
+                if not okp:
+                    cond_bad.append("%s (skipped when `%s` is %s)" % (name, short_name(pred[0]) if pred else "?", pred[1] if pred else "?"))
+            skipped_uncond = [n for n in skipped_uncond if n not in wnames] + cond_bad
             ok_ser = all(n is not None and f_ is not None for n, f_ in written) and sorted(f_ for _, f_ in written) == sorted(fields) and not skipped_uncond
             # the accepted names
             accepted = {}
